@@ -27,6 +27,20 @@ def run_core_property(ctx, module, kinds, oracles, quick, thorough, rule, extra_
     if pre_stage is not None:
         pre_stage(ctx)
     stats = {}
+    # histories on which a change to the repository once broke this property (minimised by the search then): they run first, on every run
+    corpus_n = 0
+    for entry in common.load_corpus("CORE"):
+        if ctx.pid not in entry.get("properties", [ctx.pid]):
+            continue
+        corpus_n += 1
+        try:
+            f = core_engine.replay_ops(entry["spec"], entry["ops"], oracles, extra_oracle)
+        except Exception as e:
+            f = [{"what": f"replaying a corpus history raised {type(e).__name__}: {e}"}]
+        if f:
+            ctx.violations.append({"engine": f"corpus history on the real model ({ctx.pid})", "spec": entry["spec"], "ops": entry["ops"], "failures": f[:4]})
+            break
+    stats["corpus_histories"] = corpus_n
     n = ctx.scale(quick, thorough)
     done = 0
     while done < n and not ctx.violations and len(ctx.broken) < 3:
@@ -57,6 +71,7 @@ def run_core_property(ctx, module, kinds, oracles, quick, thorough, rule, extra_
         "rule": rule,
         "samples": [stats.get("sample", {})],
         "traces": stats.get("traces", 0),
+        "corpus_histories_replayed_first": stats.get("corpus_histories", 0),
         "traces_validated_against_impl": stats.get("validated", 0),
         "steps_compared_with_model": stats.get("compared_steps", 0),
         "steps_oracle_only": stats.get("oracle_only_steps", 0),
